@@ -9,6 +9,6 @@ CONSTANTS
   HCmds = {"tick", "clear", "execdrop"}
   Spurious = TRUE
   Strict = TRUE
-  Fix = {}
+  Fix = {"D10a", "D11", "D12"}
 SPECIFICATION Spec
 INVARIANTS NoErr HomeOnly ExactlyOnce NoWakerLeak RcMatches NoLostJoinWake PendingBound ScntOk
